@@ -32,7 +32,10 @@ func c17RunPoly(s *c17Poly) (out []c17P, panicked string) {
 		}
 	}()
 	p := sdf.NewPolygon()
-	for _, v := range s.V {
+	for i, v := range s.V {
+		if i > 0 && s.Look&(1<<(uint(i-1)%62)) != 0 {
+			p.Vertices() // the program looks at the outline built so far (to size something, to print it)
+		}
 		pv := p.Add(v.X, v.Y)
 		if v.Polar {
 			pv.Polar()
@@ -48,6 +51,9 @@ func c17RunPoly(s *c17Poly) (out []c17P, panicked string) {
 		case "arc":
 			pv.Arc(v.Radius, v.Facets)
 		}
+	}
+	if s.Look != 0 && len(s.V) > 0 && s.Look&(1<<(uint(len(s.V)-1)%62)) != 0 {
+		p.Vertices()
 	}
 	if s.Closed {
 		p.Close()
@@ -389,6 +395,27 @@ func c17CheckPoly(c *Ctx, s *c17Poly, where any) {
 		return
 	}
 	c.MaxObs("worst_dev_over_scale_"+s.Gen, worst/e.Scale)
+	// history: the same outline, looked at (Vertices()) while it is being built - after every vertex, and after a PRNG-chosen
+	// subset of them. Looking at an unfinished outline must not change what the finished one is. (Reverse() is left out:
+	// it is defined on the vertex list as it stands.)
+	if !s.Reverse {
+		for _, look := range []int64{-1, int64(c.Rng("c17look", len(s.V), int(math.Float64bits(s.V[0].X)%1000)).IR(1, 1<<20))} {
+			s2 := *s
+			s2.Look = look & (1<<62 - 1)
+			got2, pan2 := c17RunPoly(&s2)
+			c.Eval(1)
+			if pan2 != "" {
+				c.Violate("", fmt.Sprintf("%s-looked-at panic %q for %s", kind, pan2, mustJSON(&s2)), map[string]any{"poly": &s2, "where": where})
+				return
+			}
+			if ok2, _, _, d2 := c17Compare(got2, e.Pts, tol, s.Closed); !ok2 {
+				c.Violate("", fmt.Sprintf("%s-looked-at: calling Vertices() while the outline was being built (after the vertices in mask %#x) changed the finished outline: %s; input=%s", kind, s2.Look, d2, mustJSON(&s2)),
+					map[string]any{"poly": &s2, "where": where, "got": got2, "expected": e.Pts})
+				return
+			}
+			c.Count("outlines_rebuilt_with_intermediate_looks", 1)
+		}
+	}
 	if rot != 0 {
 		c.Count("closed_polygons_starting_at_other_cycle_vertex", 1)
 	}
@@ -853,6 +880,7 @@ func checkC17(c *Ctx) {
 		sampleMu.Unlock()
 		c17CheckPoly(c, &s, map[string]any{"stream": "poly", "index": i})
 	})
+	c17PinnedLookArc(c)
 	// N-gons
 	rn := c.Rng("nagon")
 	for i := 0; i < c.Pick(150, 2000); i++ {
@@ -914,4 +942,15 @@ func c17CaptureStdout(fn func()) int {
 	pw.Close()
 	os.Stdout = old
 	return <-done
+}
+
+// c17PinnedLookArc: regression witness of the repaired defect polygon-arc-on-first-vertex-lost-after-look (the closing
+// segment of a closed outline is an arc, and the outline is looked at before it is closed).
+func c17PinnedLookArc(c *Ctx) {
+	s := c17Poly{Gen: "arc", Closed: true, V: []c17PV{
+		{X: 0, Y: 0, Kind: "arc", Radius: -8, Facets: 6},
+		{X: 10, Y: 0},
+		{X: 10, Y: 10},
+	}}
+	c17CheckPoly(c, &s, "pinned: arc on the first vertex, looked at before Close()")
 }
